@@ -149,6 +149,11 @@ def _collision_pairs():
             for b in members:
                 if a != b:
                     yield a, b
+    # ... or whose tuples of numbers hash alike in CPython (hash(-1) == hash(-2); hash(n) == hash(n + 2**61 - 1))
+    for node, child, command, ack in ((7, 255, 3, 0), (7, 1, 1, 1), (0, 255, 3, 0)):
+        for a_type, b_type in ((-1, -2), (0, 2**61 - 1), (5, 5 + 2**61 - 1), (2, 2 - (2**61 - 1)), (1, 1 + 2 * (2**61 - 1))):
+            yield (node, child, command, ack, a_type), (node, child, command, ack, b_type)
+            yield (node, child, command, ack, b_type), (node, child, command, ack, a_type)
 
 
 def _nontrivial(msg: list) -> bool:
